@@ -704,8 +704,8 @@ def r5_effects(L, repo):
         f = fold_parse_cmd(repo, [verb, "935800"])
         L.require("C05.R5", FT, fn, "%s stores the frequency (kHz -> Hz) and answers 0" % verb,
                   (0, 935800000), (f.ret, f.stores().get(attr)))
-    f = fold_parse_cmd(repo, ["NOMTXPOWER"], {"tx_power_base": 37})
-    L.require("C05.R5", FT, fn, "NOMTXPOWER answers (0, [nominal power])", (0, ["37"]),
+    f = fold_parse_cmd(repo, ["NOMTXPOWER"], {"tx_power_base": 37, "tx_att_base": 10})
+    L.require("C05.R5", FT, fn, "NOMTXPOWER answers (0, [nominal power]) whatever attenuation SETPOWER configured", (0, ["37"]),
               (f.ret[0], list(f.ret[1])) if isinstance(f.ret, tuple) and len(f.ret) == 2 else f.ret)
     f = fold_parse_cmd(repo, ["SETPOWER", "20"])
     L.require("C05.R5", FT, fn, "SETPOWER stores the attenuation and answers 0", (0, 20), (f.ret, f.stores().get("tx_att_base")))
